@@ -482,6 +482,8 @@ def build_node(n):
             gn = gn.with_outputs(dict(n["out_rename"]))
         if n.get("map_over"):
             gn = gn.map_over(*n["map_over"])
+        if n.get("rename_to") is not None:
+            gn = gn.with_name(n["rename_to"])          # the one way to a node name that as_node(name=...) itself rejects
         return gn
     outs = n["outputs"]
     if kind == "func" and (n.get("via_swap") or n.get("via_out_rename")):
@@ -617,7 +619,8 @@ def vnode_term(N, n, real):
         tg = [t for t in n.get("targets", []) if t != "END"]
     P = lambda xs: c_list([c_pos(N(x)) for x in xs])  # noqa: E731
     tyd = lambda d: c_list([c_pair(c_pos(N(a)), c_list([c_opt(t, lambda x: coq_ty(N, x)) for t in ts])) for a, ts in d.items()])  # noqa: E731
-    return (f"(mk_vnode {c_pos(N(n['name']))} {k} {P(ins)} {P(outs)} {P(wait)} {P(tg)} {pdl.c_dictval(N, dfl)} false {tyd(in_ty)} {tyd(out_ty)})")
+    nm = n["rename_to"] if (kind == "graph" and n.get("rename_to") is not None) else n["name"]
+    return (f"(mk_vnode {c_pos(N(nm))} {k} {P(ins)} {P(outs)} {P(wait)} {P(tg)} {pdl.c_dictval(N, dfl)} false {tyd(in_ty)} {tyd(out_ty)})")
 
 
 def vgraph_term(N, g, real_nodes):
@@ -802,6 +805,21 @@ def flaws_at_level(g, cap):
                 h = copy.deepcopy(g)
                 h["edges"][k] = [e[0], e[1], [only_in[0]]]
                 out.append(("explicit_edge", f"edge {k}: value is not an output of the source", h))
+    # a nested-graph node renamed to something that is no path component; an output name listed twice by one node; a wait on a name
+    # that only the waiter itself produces
+    for i, d in enumerate(nodes):
+        if d["kind"] == "graph":
+            targeted = any(d["name"] in x.get("targets", []) for x in nodes)
+            if not targeted:
+                for bad_nm in ("a.b", "x/y"):
+                    mod(i, lambda h, m, bad_nm=bad_nm: m.__setitem__("rename_to", bad_nm), "graphnode_name", f"{d['name']}: renamed to {bad_nm!r} with with_name")
+        elif d["kind"] == "func" and d["outputs"] and not d.get("via_swap") and not d.get("via_out_rename"):
+            def dup(h, m):
+                m["outputs"] = list(m["outputs"]) + [m["outputs"][0]]
+            mod(i, dup, "repeated_output", f"{d['name']}: output {d['outputs'][0]!r} listed twice")
+            sole = not any(x is not d and d["outputs"][0] in node_outputs(x) for x in nodes if x["kind"] != "graph")
+            if not d.get("wait_for") and sole and d["outputs"][0] not in d["inputs"]:
+                mod(i, lambda h, m: m.__setitem__("wait_for", [m["outputs"][0]]), "wait_own_output", f"{d['name']}: waits for its own output")
     # strict types
     if g.get("strict"):
         for i, d in enumerate(nodes):
@@ -927,6 +945,45 @@ def strict_boundary_part(ctx):
     return n
 
 
+def nested_interrupt_in_map_part(ctx):
+    """A mapping GraphNode over a graph that holds an interrupt - directly, or one or two nested graphs further down - is a
+    structural mistake (interrupts cannot be mapped): the constructor rejects it at every depth; the same graph without map_over,
+    or with the interrupt replaced by a function node, is accepted."""
+    from hypergraph import Graph
+    from hypergraph.graph.validation import GraphConfigError
+    from hypergraph.nodes import FunctionNode, InterruptNode
+    n = 0
+    for depth in (0, 1, 2):
+        for with_interrupt in (True, False):
+            for mapped in (True, False):
+                def ask(x):
+                    return None
+
+                def plain(x):
+                    return x
+                leaf = InterruptNode(ask, name="ask", output_name="ans") if with_interrupt else FunctionNode(plain, name="ask", output_name="ans")
+                g = Graph([leaf], name="lvl0")
+                for d in range(depth):
+                    g = Graph([g.as_node()], name=f"lvl{d + 1}")
+                node = g.as_node()
+                try:
+                    if mapped:
+                        node = node.map_over("x")
+                    Graph([node])
+                    verdict = "accepted"
+                except GraphConfigError:
+                    verdict = "rejected"
+                except Exception as e:  # noqa: BLE001
+                    verdict = f"crash:{type(e).__name__}"
+                n += 1
+                want = "rejected" if (with_interrupt and mapped) else "accepted"
+                if verdict != want:
+                    ctx.violation("oracle", f"a {'mapping ' if mapped else ''}GraphNode over a graph holding {'an interrupt' if with_interrupt else 'no interrupt'} "
+                                  f"{depth} nested graph(s) further down was {verdict}, expected {want}",
+                                  case={"family": "nested_interrupt_in_map", "depth": depth, "interrupt": with_interrupt, "mapped": mapped})
+    return n
+
+
 # =========================================================================== driver
 
 
@@ -943,6 +1000,12 @@ def add_model_check(batch, N, i, g, real_nodes, outcome):
             names_used.update(r.outputs)
     bad = [s for s in sorted(names_used) if not ident_ok(s)]
     gbad = [g["name"]] if g.get("name") and ("." in g["name"] or "/" in g["name"]) else []
+    # names of nested-graph NODES are path components too (no '.', no '/', not empty)
+    for n_ in g["nodes"]:
+        if n_["kind"] == "graph":
+            nm_ = n_["rename_to"] if n_.get("rename_to") is not None else n_["name"]
+            if nm_ == "" or "." in nm_ or "/" in nm_:
+                gbad.append(nm_)
     batch.add_def(i, "g", vgraph_term(N, g, real_nodes), "vgraph")
     batch.add_def(i, "bad", c_list([c_pos(N(s)) for s in bad]), "list positive")
     batch.add_def(i, "gbad", c_list([c_pos(N(s)) for s in gbad]), "list positive")
@@ -1068,7 +1131,7 @@ def run(ctx):
         except ValueError as e:
             ctx.violation("harness", f"cannot describe the graph to the model: {e}", case={"graph": g})
     res = batch.run()
-    n_boundary = strict_boundary_part(ctx)
+    n_boundary = strict_boundary_part(ctx) + nested_interrupt_in_map_part(ctx)
     n_eval += n_boundary
     dist["strict_boundary_constructions"] = n_boundary
     # the types a nested graph offers across its boundary, and the edge verdict, against coq/theories/BoundaryTypes.v
